@@ -258,6 +258,28 @@ KINDS = ("none", "in_trunc", "in_eio", "in_missing", "out_err", "refine", "timeo
          "worker", "git", "opt_unknown", "opt_invalid", "opt_inconsistent", "envelope")
 
 
+def torpex_case(rng, key):
+    """hypnotoad-torpex under a fault plan (thorough tier; 55-80 s per run).  The script
+    catches exceptions from geometry(), prints them and goes on to writeGridfile()."""
+    kind = rng.choice(("none", "refine", "timeout", "out_err", "refine"))
+    case = {"entry": "torpex", "geometry": None, "options": {}, "kind": kind, "np": 1,
+            "wall": None, "fault": {}, "sched_seed": key % 10**9,
+            "torpex_yaml": rng.choice(("torpex-coils.yaml", "torpex-coils-nonorth.yaml"))}
+    f = case["fault"]
+    if kind == "refine":
+        f.update({"buggify": {"mode": "content", "key": key,
+                              "arm": {"newton": 1.0,
+                                      "integrate": rng.choice((1e-4, 1e-3, 1e-2))}},
+                  "clock": None, "sub": "exhaust"})
+    elif kind == "timeout":
+        f.update({"buggify": None, "sub": "timeout",
+                  "clock": {"key": key, "slowness": 1.0,
+                            "slow_prob": rng.choice((1e-4, 1e-3))}})
+    elif kind == "out_err":
+        f.update({"k": rng.randrange(1, 150), "err": "ENOSPC"})
+    return case
+
+
 def make_case(rng, key, kind=None, entry=None, geom=None):
     kind = kind or rng.choice(KINDS)
     if entry is None:
@@ -376,7 +398,29 @@ def run_case(case, keep_log=False):
             else core.Choices(rng=random.Random(core.h64(f"fs/{case['sched_seed']}")))
         grid_path = os.path.join(d, "bout.grd.nc")
         simopen = None
-        if entry in ("geqdsk", "circular"):
+        if entry == "torpex":
+            import sys as _sys
+
+            deps = os.path.join(core.VERIF, ".deps")
+            if deps not in _sys.path:
+                _sys.path.append(deps)
+            try:
+                import sympy  # noqa: F401
+            except ImportError:
+                return {"engine": "c12-fault", "case": dict(case), "outcome":
+                        ["not_run", None, "sympy is not installed"], "problems": None,
+                        "violation": None, "counters": {}, "psi": None,
+                        "event_log_digest": None}
+            from hypnotoad.scripts import hypnotoad_torpex
+
+            shutil.copy(os.path.join(core.REPO, "examples", "torpex-xpoint",
+                                     case.get("torpex_yaml", "torpex-coils.yaml")),
+                        os.path.join(d, "torpex.yaml"))
+            grid_path = os.path.join(d, "torpex.grd.nc")
+            res = cli.run_entry(hypnotoad_torpex.main,
+                                ["hypnotoad-torpex", "torpex.yaml", "--noplot"], d,
+                                choices=choices, seams=seams, clock=clk, keep_log=keep_log)
+        elif entry in ("geqdsk", "circular"):
             files = {"in.yaml": yaml.safe_dump(options)}
             if entry == "geqdsk":
                 arrs = workloads.tokamak_arrays(case["geometry"], wall=case["wall"])
@@ -426,7 +470,9 @@ def run_case(case, keep_log=False):
                 g = gridio.read_grid(grid_path)
                 tok = entry in ("geqdsk", "api-tok")
                 ntg = None
-                if tok:
+                if entry == "torpex":
+                    ntg = 4
+                elif tok:
                     ntg = 2 if case["geometry"] in ("lsn", "usn") else 4
                 elif not options.get("limiter"):
                     ntg = 0
